@@ -9,7 +9,7 @@ namespace {
 
 struct C09 : RBase {
   const char* id() const override { return "C09"; }
-  long budget(const std::string& tier) const override { return tier == "thorough" ? 300000 : 6000; }
+  long budget(const std::string& tier) const override { return tier == "thorough" ? 300000 : 12000; }
   bool per_step_checks() const override { return true; }
   std::string rule() const override {
     return "plan = history of up to 30 container operations, each compiled and run as its own unit in one context (an operation that fails does not end the history): at, put, insert, "
